@@ -144,7 +144,8 @@ func (r *Result) Sample(s interface{}) {
 	}
 }
 func (r *Result) Violate(key, desc string, replay interface{}) {
-	// keep one violation per key (the first = smallest by construction of the streams)
+	// keep one violation per key (the first = smallest by construction of the streams); count all
+	r.Dist("violation:" + key)
 	for _, v := range r.Violations {
 		if v.Key == key {
 			return
